@@ -20,6 +20,8 @@ class Assembled:
         self.dropped = {}      # relpath -> [(kind, text)]
         self.linemap = []      # per generated line: (relpath or '<spec>' or '<wrap>', 'repo'|'injected')
         self.contracted = []
+        self.lost = []
+        self.auto_external = []
         self.lemmas = []
         self.assumed = []
         self.edits = []        # (relpath, kind, note, new_text)
@@ -58,6 +60,8 @@ def _render_file(asm, src_root, relpath, apply_contracts, depth=0):
         fc.ed.replace(m.start(), m.end(), new, 'wrap', 'mod %s' % name)
     text, spans, pro_len = fc.render()
     asm.contracted.extend(fc.contracted)
+    asm.lost.extend(fc.lost)
+    asm.auto_external.extend(fc.auto_external)
     for (nm, tags) in fc.lemmas:
         asm.lemmas.append(dict(relpath=relpath, name=nm, tags=tags))
     asm.assumed.extend(fc.assumed)
